@@ -99,7 +99,18 @@ func observe(p *pairProg, stdout, stderr string) *observation {
 
 // runWorker runs `c20 worker [a] b` and returns B's sections.
 func runWorker(a, b string) (stdout, stderr string, note string) {
+	return runWorkerMode("file", a, b)
+}
+
+// runWorkerMode: mode "file" runs both programs through (*VM).LoadAndRun, mode "string"
+// through Parser.ParseString + Program.GetValue (the two entry points an embedder has). The
+// exit status of the worker process (decided by B: exit(n), os.Exit in the interpreter) is
+// appended to B's stderr section, so that it is part of every comparison.
+func runWorkerMode(mode, a, b string) (stdout, stderr string, note string) {
 	argv := []string{os.Args[0], "worker"}
+	if mode == "string" {
+		argv = append(argv, "-string")
+	}
 	if a != "" {
 		argv = append(argv, a)
 	}
@@ -126,7 +137,8 @@ func runWorker(a, b string) (stdout, stderr string, note string) {
 	if i < 0 || j < 0 {
 		return "", "", "first program ended the process"
 	}
-	return r.Stdout[i+len(workerMarker):], r.Stderr[j+len(workerMarker):], ""
+	status := fmt.Sprintf("\n@@C20-PROCESS-EXIT@@ %d %s\n", r.Exit, r.Signal)
+	return r.Stdout[i+len(workerMarker):], r.Stderr[j+len(workerMarker):] + status, ""
 }
 
 func (p *pairProg) baseline() {
